@@ -284,6 +284,26 @@ Section Complete.
   Qed.
 
   (* ---- inline tables ------------------------------------------------------------------------------ *)
+  Lemma inline_kv_rhs_complete j1 w2 t a w3 r :
+    ws_tok w2 -> val_tok t a -> length t < n -> ws_tok w3 -> rest j1 = x3d :: w2 ++ t ++ w3 ++ r -> isep_stop r ->
+    aval_ok a = true -> within (depth j1) a = true ->
+    exists pre v suf, inline_kv_rhs vr j1 = Ok (pre, v, suf) (adv ([x3d] ++ w2 ++ t ++ w3) j1) /\ vrel (depth j1) v a.
+  Proof.
+    intros Hw2 Ht Lt Hw3 R1 Hr Hok Hwi.
+    assert (R2 : rest (adv [KEYVAL_SEP] j1) = w2 ++ t ++ w3 ++ r) by (apply (rest_adv [x3d]); exact R1).
+    destruct (val_tok_head t a Ht) as (b & t' & E & Hb).
+    assert (S2 : stops wschar (t ++ w3 ++ r)) by (rewrite E; apply (vhead_facts b Hb)).
+    assert (R3 : rest (adv w2 (adv [KEYVAL_SEP] j1)) = t ++ w3 ++ r) by (apply rest_adv; exact R2).
+    destruct (Hvr t a _ (w3 ++ r) Lt Ht R3 (vfollow_ws w3 r Hw3 (vstop_follow r (isep_vstop r Hr))) Hok Hwi) as (v & Ev & Hv).
+    assert (R4 : rest (adv t (adv w2 (adv [KEYVAL_SEP] j1))) = w3 ++ r) by (apply rest_adv; exact R3).
+    eexists _, v, _. split; [|exact Hv]. unfold inline_kv_rhs. apply cut_err_ok.
+    rewrite (bind_ok _ _ _ _ _ (context_ok _ _ _ _ (byte_ok KEYVAL_SEP j1 _ R1))).
+    rewrite (bind_ok _ _ _ _ _ (span_ws_complete _ w2 _ R2 Hw2 S2)).
+    rewrite (bind_ok _ _ _ _ _ Ev).
+    rewrite (bind_ok _ _ _ _ _ (span_ws_complete _ w3 r R4 Hw3 (isep_stops_ws r Hr))).
+    rewrite !adv_adv. unfold ret. f_equal. f_equal. rewrite <- !app_assoc. reflexivity.
+  Qed.
+
   Lemma inline_keyval_complete j w0 kt p w1 w2 t a w3 r :
     ws_tok w0 -> key_tok kt p -> ws_tok w1 -> ws_tok w2 -> val_tok t a -> length t < n -> ws_tok w3 ->
     rest j = w0 ++ (kt ++ w1 ++ [x3d] ++ w2 ++ t) ++ w3 ++ r -> isep_stop r ->
@@ -297,22 +317,190 @@ Section Complete.
                 (ex_intro _ x3d (ex_intro _ _ (conj eq_refl (or_introl eq_refl)))) Hp) as (kp & Ek & Hkp).
     rewrite (bind_ok _ _ _ _ _ Ek). set (j1 := adv (w0 ++ kt ++ w1) j).
     assert (R1 : rest j1 = x3d :: w2 ++ t ++ w3 ++ r) by (apply rest_adv; rewrite H1, <- !app_assoc; reflexivity).
-    assert (Erhs : exists v, inline_kv_rhs vr j1 =
-                     Ok ((pos (adv [KEYVAL_SEP] j1), pos (adv w2 (adv [KEYVAL_SEP] j1))), v,
-                         (pos (adv ([x3d] ++ w2 ++ t) j1), pos (adv w3 (adv ([x3d] ++ w2 ++ t) j1))))
-                        (adv ([x3d] ++ w2 ++ t ++ w3) j1) /\ vrel (depth j) v a).
-    { unfold inline_kv_rhs.
-      rewrite (cut_err_ok _ _ _ _ _); [eexists; split; [reflexivity|]|].
-      2:{ rewrite (bind_ok _ _ _ _ _ (context_ok _ _ _ _ (byte_ok KEYVAL_SEP j1 _ R1))).
-          assert (R2 : rest (adv [KEYVAL_SEP] j1) = w2 ++ t ++ w3 ++ r) by (apply (rest_adv [x3d]); exact R1).
-          destruct (val_tok_head t a Ht) as (b & t' & E & Hb).
-          assert (S2 : stops wschar (t ++ w3 ++ r)) by (rewrite E; apply (vhead_facts b Hb)).
-          rewrite (bind_ok _ _ _ _ _ (span_ws_complete _ w2 _ R2 Hw2 S2)).
-          assert (R3 : rest (adv w2 (adv [KEYVAL_SEP] j1)) = t ++ w3 ++ r) by (apply rest_adv; exact R2).
-          destruct (Hvr t a _ (w3 ++ r) Lt Ht R3 (vfollow_ws w3 r Hw3 (vstop_follow r (isep_vstop r Hr))) Hok Hwi) as (v & Ev & Hv).
-          rewrite (bind_ok _ _ _ _ _ Ev). rewrite !adv_adv.
-          assert (R4 : rest (adv ([KEYVAL_SEP] ++ w2 ++ t) j1) = w3 ++ r).
-          { apply rest_adv. rewrite R1. cbn [app]. rewrite <- !app_assoc. reflexivity. }
-          rewrite (bind_ok _ _ _ _ _ (span_ws_complete _ w3 r R4 Hw3 (isep_stops_ws r Hr))).
-          rewrite adv_adv. unfold ret. f_equal.
-Abort.
+    destruct (inline_kv_rhs_complete j1 w2 t a w3 r Hw2 Ht Lt Hw3 R1 Hr Hok Hwi) as (pre & v & suf & Erhs & Hv).
+    rewrite (bind_ok _ _ _ _ _ Erhs). cbv beta iota.
+    assert (Hne : kp <> []) by (intros ->; apply (key_tok_nonempty _ _ Hkt); rewrite <- Hkp; reflexivity).
+    destruct (pop_key_total kp Hne) as (path & k & Ep). rewrite Ep.
+    eexists. split.
+    - unfold ret, j1. rewrite adv_adv. f_equal. f_equal. rewrite <- !app_assoc. reflexivity.
+    - split; cbn [fst snd].
+      + rewrite <- Hkp. apply (pop_key_keys _ _ _ Ep).
+      + eexists. split; [reflexivity|]. apply vrel_decorate. exact Hv.
+  Qed.
+
+  Lemma inline_keyval_fails j w tl : ws_tok w -> rest j = w ++ x7d :: tl -> fails (inline_keyval vr) j.
+  Proof.
+    intros Hw H. unfold fails. rewrite inline_keyval_eq. apply bind_fails.
+    apply (key_fails j w x7d tl Hw H); try reflexivity; discriminate.
+  Qed.
+
+  Definition prs_ok (d : nat) (l : list (list bytes * aval)) : Prop :=
+    Forall (fun pa : list bytes * aval => length (fst pa) < LIMIT /\ aval_ok (snd pa) = true /\ within d (snd pa) = true) l.
+
+  Lemma inline_keyvals_complete kvs l : inline_keyvals_tok kvs l -> forall j w0 w3 r,
+    ws_tok w0 -> ws_tok w3 -> length kvs < n -> rest j = w0 ++ kvs ++ w3 ++ [x7d] ++ r -> prs_ok (depth j) l ->
+    exists pr j1 prs, inline_keyval vr j = Ok pr j1
+      /\ seps (inline_keyval vr) (byte_ INLINE_TABLE_SEP) j1 prs (adv (w0 ++ kvs ++ w3) j)
+      /\ Forall2 (prel (depth j)) (pr :: prs) l.
+  Proof.
+    induction 1 as [kt p w1 w2 t a Hkt Hw1 Hw2 Ht|kt p w1 w2 t a w3' w4 u l Hkt Hw1 Hw2 Ht Hw3' Hw4 Hu IH];
+      intros j w0 w3 r Hw0 Hw3 Hlen H Hl.
+    - inversion Hl as [|pa l0 (Hp & Hok & Hwi) _]; subst. cbn [fst snd] in *.
+      assert (Lt : length t < n) by (rewrite !app_length in Hlen; lia).
+      assert (H' : rest j = w0 ++ (kt ++ w1 ++ [x3d] ++ w2 ++ t) ++ w3 ++ x7d :: r) by (rewrite H, <- !app_assoc; reflexivity).
+      destruct (inline_keyval_complete j w0 kt p w1 w2 t a w3 _ Hw0 Hkt Hw1 Hw2 Ht Lt Hw3 H'
+                  (ex_intro _ x7d (ex_intro _ r (conj eq_refl (or_intror eq_refl)))) Hp Hok Hwi) as (pr & Ep & Hpr).
+      eexists pr, _, []. split; [exact Ep|]. split; [|constructor; [exact Hpr|constructor]].
+      apply seps_stop_sep, byte_fails. rewrite (rest_adv _ (x7d :: r) j); [reflexivity|].
+      rewrite H', <- !app_assoc. reflexivity.
+    - inversion Hl as [|pa l0 (Hp & Hok & Hwi) Hl']; subst. cbn [fst snd] in *.
+      assert (Lt : length t < n) by (rewrite !app_length in Hlen; lia).
+      assert (Lu : length u < n) by (rewrite !app_length in Hlen; lia).
+      assert (H' : rest j = w0 ++ (kt ++ w1 ++ [x3d] ++ w2 ++ t) ++ w3' ++ x2c :: w4 ++ u ++ w3 ++ [x7d] ++ r)
+        by (rewrite H, <- !app_assoc; reflexivity).
+      destruct (inline_keyval_complete j w0 kt p w1 w2 t a w3' _ Hw0 Hkt Hw1 Hw2 Ht Lt Hw3' H'
+                  (ex_intro _ x2c (ex_intro _ _ (conj eq_refl (or_introl eq_refl)))) Hp Hok Hwi) as (pr & Ep & Hpr).
+      set (j1 := adv (w0 ++ (kt ++ w1 ++ [x3d] ++ w2 ++ t) ++ w3') j) in *.
+      assert (R1 : rest j1 = x2c :: w4 ++ u ++ w3 ++ [x7d] ++ r) by (apply rest_adv; rewrite H', <- !app_assoc; reflexivity).
+      pose proof (byte_ok INLINE_TABLE_SEP j1 _ R1) as Esep.
+      assert (R2 : rest (adv [INLINE_TABLE_SEP] j1) = w4 ++ u ++ w3 ++ [x7d] ++ r) by (apply (rest_adv [x2c]); exact R1).
+      destruct (IH (adv [INLINE_TABLE_SEP] j1) w4 w3 r Hw4 Hw3 Lu R2 Hl') as (pr' & k1 & prs & Ep' & R & HF).
+      exists pr, j1, (pr' :: prs). split; [exact Ep|]. split; [|constructor; [exact Hpr|exact HF]].
+      eapply seps_cons; [exact Esep| |exact Ep'| |].
+      + rewrite R2, R1. cbn [length]. lia.
+      + apply (ext_len _ _ _ (inline_keyval_mono vr Hmono _ _ _ Ep')).
+      + replace (adv (w0 ++ (kt ++ w1 ++ [x3d] ++ w2 ++ t ++ w3' ++ [x2c] ++ w4 ++ u) ++ w3) j)
+          with (adv (w4 ++ u ++ w3) (adv [INLINE_TABLE_SEP] j1)); [exact R|].
+        unfold j1. rewrite !adv_adv. f_equal. rewrite <- !app_assoc. reflexivity.
+  Qed.
+
+  Lemma within_inline_pairs d kvs : within d (AInl kvs) = true -> aval_ok (AInl kvs) = true ->
+    S d < LIMIT /\ prs_ok (S d) kvs.
+  Proof.
+    cbn [within aval_ok]. intros Hwi Hok. apply andb_true_iff in Hwi as [Hd Hwi]. apply andb_true_iff in Hok as [Hok _].
+    split; [apply Nat.ltb_lt, Hd|]. unfold prs_ok. rewrite forallb_forall in Hwi, Hok. apply Forall_forall.
+    intros pa Hin. specialize (Hwi pa Hin). specialize (Hok pa Hin). apply andb_true_iff in Hwi as [Hl Hw].
+    apply Nat.ltb_lt in Hl. split; [lia|auto].
+  Qed.
+
+  Lemma inline_table_complete t kvs : val_tok t (AInl kvs) -> forall i r d0,
+    length t < S n -> rest i = t ++ r -> depth i = S d0 ->
+    aval_ok (AInl kvs) = true -> within d0 (AInl kvs) = true ->
+    exists v, inline_table vr i = Ok v (adv t i) /\ vrel d0 v (AInl kvs).
+  Proof.
+    intros Hv i r d0 Hlen H Hd Hok Hwi. rewrite inline_table_eq.
+    destruct (within_inline_pairs d0 kvs Hwi Hok) as [Hlim Hprs].
+    assert (Hbody : forall body pairs j, rest j = body ++ x7d :: r -> t = [x7b] ++ body ++ [x7d] -> j = adv [INLINE_TABLE_OPEN] i ->
+              (exists pre, inline_kvs vr j = Ok (pairs, pre) (adv body j)) -> Forall2 (prel (S d0)) pairs kvs ->
+              exists v, (t0 <- cut_err (inline_body vr) ;; context (cut_err (byte_ INLINE_TABLE_CLOSE)) ;;; ret t0) j = Ok v (adv t i)
+                        /\ vrel d0 v (AInl kvs)).
+    { intros body pairs j Rj Et Ej (pre & Ek) HF.
+      destruct (prel_ipairs _ _ _ HF) as (l & -> & Hl).
+      destruct (inline_bridge_complete (S d0) l kvs Hl d0 pre eq_refl Hok Hwi) as (v & Etm).
+      exists v. split; [|apply (inline_bridge_sound (S d0) l kvs Hl d0 pre v eq_refl Hlim Etm)].
+      assert (Eb : inline_body vr j = Ok v (adv body j)).
+      { unfold inline_body. apply (try_map_ok _ _ _ (to_pairs l, pre) v _ Ek Etm). }
+      rewrite (bind_ok _ _ _ _ _ (cut_err_ok _ _ _ _ Eb)).
+      assert (R2 : rest (adv body j) = x7d :: r) by (apply rest_adv; exact Rj).
+      rewrite (bind_ok _ _ _ _ _ (context_ok _ _ _ _ (cut_err_ok _ _ _ _ (byte_ok INLINE_TABLE_CLOSE _ _ R2)))).
+      subst j t. rewrite !adv_adv. reflexivity. }
+    inversion Hv as [| | | |w Hw E1 E2|w1 kvt l w2 Hw1 Hkv Hw2 E1 E2| | |]; subst.
+    - assert (R0 : rest i = x7b :: w ++ [x7d] ++ r) by (rewrite H, <- !app_assoc; reflexivity).
+      rewrite (bind_ok _ _ _ _ _ (byte_ok INLINE_TABLE_OPEN i _ R0)).
+      set (j := adv [INLINE_TABLE_OPEN] i). assert (R1 : rest j = w ++ x7d :: r) by (apply (rest_adv [x7b]); exact R0).
+      apply (Hbody w [] j R1 eq_refl eq_refl); [|constructor].
+      eexists. unfold inline_kvs.
+      rewrite (bind_ok _ _ _ _ _ (separated0_nil _ _ _ (inline_keyval_fails j w r Hw R1))).
+      assert (Sw : stops wschar (x7d :: r)) by reflexivity.
+      rewrite (bind_ok _ _ _ _ _ (span_ws_complete j w _ R1 Hw Sw)). reflexivity.
+    - assert (R0 : rest i = x7b :: w1 ++ kvt ++ w2 ++ [x7d] ++ r) by (rewrite H, <- !app_assoc; reflexivity).
+      rewrite (bind_ok _ _ _ _ _ (byte_ok INLINE_TABLE_OPEN i _ R0)).
+      set (j := adv [INLINE_TABLE_OPEN] i).
+      assert (R1 : rest j = w1 ++ kvt ++ w2 ++ [x7d] ++ r) by (apply (rest_adv [x7b]); exact R0).
+      assert (Lk : length kvt < n) by (rewrite !app_length in Hlen; cbn [length] in Hlen; lia).
+      assert (Dj : depth j = S d0) by exact Hd.
+      rewrite <- Dj in Hprs.
+      destruct (inline_keyvals_complete kvt kvs Hkv j w1 w2 r Hw1 Hw2 Lk R1 Hprs) as (pr & j1 & prs & Ep & R & HF).
+      rewrite Dj in HF.
+      apply (Hbody (w1 ++ kvt ++ w2) (pr :: prs) j); [rewrite R1, <- !app_assoc; reflexivity|rewrite <- !app_assoc; reflexivity|reflexivity| |exact HF].
+      eexists. unfold inline_kvs.
+      rewrite (bind_ok _ _ _ _ _ (separated0_cons _ _ _ _ _ _ _ Ep R)).
+      assert (R2 : rest (adv (w1 ++ kvt ++ w2) j) = [] ++ x7d :: r) by (apply rest_adv; rewrite R1, <- !app_assoc; reflexivity).
+      assert (Sw : stops wschar (x7d :: r)) by reflexivity.
+      rewrite (bind_ok _ _ _ _ _ (span_ws_complete _ [] _ R2 eq_refl Sw)). rewrite adv_nil. reflexivity.
+  Qed.
+
+  (* ---- the dispatch ------------------------------------------------------------------------------------ *)
+  Lemma within_array d l : within d (AArr l) = true -> S d < LIMIT /\ forallb (within (S d)) l = true.
+  Proof. cbn [within]. intro H. apply andb_true_iff in H as [H1 H2]. split; [apply Nat.ltb_lt, H1|exact H2]. Qed.
+
+  Lemma value_body_complete : vcomplete_at (S n) (value_body vr).
+  Proof.
+    intros t a i r Hlen Ht H Hr Hok Hwi. pose proof Ht as Ht0.
+    destruct Ht as [t s Hs|t b Hb|w Hw|vs l w Hvs Hw|w Hw|w1 kvs l w2 Hw1 Hkv Hw2|t d Hd|t f Hf|t z Hz].
+    - exists (scalar_value (SString s)). split; [apply (value_body_string vr i t s r Hs H Hr)|].
+      apply vrel_scalar; auto.
+    - exists (scalar_value (SBool b)). split; [apply (value_body_boolean vr i t b r Hb H)|]. apply vrel_scalar; auto.
+    - destruct (within_array _ _ Hwi) as [Hlim Hwl].
+      assert (R0 : rest i = x5b :: (w ++ [x5d]) ++ r) by (rewrite H, <- !app_assoc; reflexivity).
+      rewrite (value_body_arm vr i x5b _ R0). change (value_arm vr x5b) with (check_recursion (array vr)).
+      set (i1 := set_depth (S (depth i)) i).
+      destruct (array_complete _ _ Ht0 i1 r Hlen H Hok Hwl) as (items & tr & c & dec & sp & Ea & HF).
+      eexists. split; [apply (check_recursion_complete _ _ _ _ Hlim Ea)|]. apply vrel_array; assumption.
+    - destruct (within_array _ _ Hwi) as [Hlim Hwl].
+      assert (R0 : rest i = x5b :: (vs ++ w ++ [x5d]) ++ r) by (rewrite H, <- !app_assoc; reflexivity).
+      rewrite (value_body_arm vr i x5b _ R0). change (value_arm vr x5b) with (check_recursion (array vr)).
+      set (i1 := set_depth (S (depth i)) i). cbn [aval_ok] in Hok.
+      destruct (array_complete _ _ Ht0 i1 r Hlen H Hok Hwl) as (items & tr & c & dec & sp & Ea & HF).
+      eexists. split; [apply (check_recursion_complete _ _ _ _ Hlim Ea)|]. apply vrel_array; assumption.
+    - destruct (within_inline_pairs _ _ Hwi Hok) as [Hlim _].
+      assert (R0 : rest i = x7b :: (w ++ [x7d]) ++ r) by (rewrite H, <- !app_assoc; reflexivity).
+      rewrite (value_body_arm vr i x7b _ R0). change (value_arm vr x7b) with (check_recursion (inline_table vr)).
+      set (i1 := set_depth (S (depth i)) i).
+      destruct (inline_table_complete _ _ Ht0 i1 r (depth i) Hlen H eq_refl Hok Hwi) as (v & Ev & Hv).
+      exists v. split; [apply (check_recursion_complete _ _ _ _ Hlim Ev)|exact Hv].
+    - destruct (within_inline_pairs _ _ Hwi Hok) as [Hlim _].
+      assert (R0 : rest i = x7b :: (w1 ++ kvs ++ w2 ++ [x7d]) ++ r) by (rewrite H, <- !app_assoc; reflexivity).
+      rewrite (value_body_arm vr i x7b _ R0). change (value_arm vr x7b) with (check_recursion (inline_table vr)).
+      set (i1 := set_depth (S (depth i)) i).
+      destruct (inline_table_complete _ _ Ht0 i1 r (depth i) Hlen H eq_refl Hok Hwi) as (v & Ev & Hv).
+      exists v. split; [apply (check_recursion_complete _ _ _ _ Hlim Ev)|exact Hv].
+    - exists (scalar_value (SDatetime d)). split; [apply (value_body_date_time vr i t d r Hd H Hr)|]. apply vrel_scalar; auto.
+    - assert (Hfin : finite f).
+      { destruct f as [x|x|x m e]; try exact I. cbn [within] in Hwi. cbn [finite]. destruct (overflows m e); [discriminate|reflexivity]. }
+      exists (scalar_value (SFloat f)). split; [apply (value_body_float vr i t f r Hf Hfin H Hr)|]. apply vrel_scalar; auto.
+    - exists (scalar_value (SInt z)). split; [apply (value_body_integer vr i t z r Hz Hwi H Hr)|]. apply vrel_scalar; auto.
+  Qed.
+
+  Lemma value_step_complete : vcomplete_at (S n) (value_step vr).
+  Proof.
+    intros t a i r Hlen Ht H Hr Hok Hwi.
+    destruct (value_body_complete t a i r Hlen Ht H Hr Hok Hwi) as (v & Ev & Hv).
+    exists (apply_raw v (pos i, pos (adv t i))). split; [|apply vrel_apply_raw, Hv].
+    unfold value_step. rewrite (pmap_ok _ _ _ _ _ (with_span_ok _ _ _ _ Ev)). reflexivity.
+  Qed.
+
+  Lemma value_step_close : vclose (value_step vr).
+  Proof.
+    intros j b tl H Hb. destruct (value_body_close vr j b tl H Hb) as (e & j' & F).
+    unfold fails, value_step, pmap, with_span. rewrite F. eauto.
+  Qed.
+End Complete.
+
+Lemma value_f_complete n : vcomplete_at n (value_f n).
+Proof.
+  induction n as [|n IH]; [intros t a i r Hlen; lia|].
+  change (value_f (S n)) with (value_step (value_f n)).
+  destruct n as [|m].
+  - intros t a i r Hlen Ht. destruct (val_tok_head t a Ht) as (b & t' & -> & _). cbn [length] in Hlen. lia.
+  - apply value_step_complete; [exact IH| |apply (proj1 (value_f_all (S m)))].
+    change (value_f (S m)) with (value_step (value_f m)). apply value_step_close.
+Qed.
+
+Theorem value_complete t a i r :
+  val_tok t a -> rest i = t ++ r -> vfollow r -> aval_ok a = true -> within (depth i) a = true ->
+  exists v, value_ i = Ok v (adv t i) /\ vrel (depth i) v a.
+Proof.
+  intros Ht H Hr Hok Hwi. unfold value_. apply (value_f_complete _ t a i r); try assumption.
+  rewrite H, app_length. lia.
+Qed.
